@@ -20,6 +20,7 @@ from ..core.flow import Flow
 from ..core.index import unparse, walk_no_nested
 from ..core.report import AnalysisError, Finding, RuleResult
 from ..core.sqlfacts import SqlFacts
+from . import _expand as X
 from . import c10
 
 EXPLANATION = (
@@ -167,6 +168,15 @@ def _resolve(fn, name, before_line):
     return best.value if best is not None else None
 
 
+def _ancestors(parents, test, stmt):
+    """the loop filter for path conditions: ancestors of the statement the condition was taken from (conditions collected
+    outside the classifier's loop are about the whole loop, not about the flag)"""
+    n = test
+    while n in parents:
+        n = parents[n]
+        yield n
+
+
 def rule_r2(ctx) -> RuleResult:
     rr = RuleResult("C17.R2", "inclusion map: used name -> including pages; probed with the popped page's own name",
                     min_instances=5)
@@ -205,12 +215,34 @@ def rule_r2(ctx) -> RuleResult:
         rr.bad(Finding("C17.R2", CORE, FN, "included_map[...].add({})".format(unparse(val)),
                        "the map value is not the including page's title", a.lineno))
     # the classifier's flag drives the initial marking
-    ifs = [n for n in walk_no_nested(fn) if isinstance(n, ast.If) and unparse(n.test) == flag_name]
-    if ifs and any("set_template_pre_expand(page.title)" in unparse(s) for s in ifs[0].body):
-        rr.ok(FN, "if {}: mark page".format(flag_name))
-    else:
-        rr.bad(Finding("C17.R2", CORE, FN, "if {}: set_template_pre_expand(page.title)".format(flag_name),
-                       "the classifier's flag no longer marks the classified page", fn.lineno))
+    # (path conditions of the marking call inside the classifier's loop: exactly "the flag is true")
+    cls_loops = [f for f in fors if any(x is call_assign for x in ast.walk(f))]
+    if not cls_loops:
+        raise AnalysisError("analyze_templates: the classifier is no longer called in a loop")
+    cls_loop = cls_loops[-1]
+    marks = [n for n in ast.walk(cls_loop) if isinstance(n, ast.Call) and unparse(n.func).endswith("set_template_pre_expand")
+             and n.args and unparse(n.args[0]) == "page.title"]
+    if not marks:
+        raise AnalysisError("analyze_templates: no set_template_pre_expand(page.title) in the classifier's loop -- initial marking not recognised")
+    parents = {c: p_ for p_ in ast.walk(fn) for c in ast.iter_child_nodes(p_)}
+    for mk in marks:
+        st = mk
+        while st in parents and not isinstance(st, ast.stmt):
+            st = parents[st]
+        conds = [(unparse(t), truth) for t, truth in X.path_conditions(parents, st)
+                 if any(x is cls_loop for x in _ancestors(parents, t, st))]
+        if conds == [(flag_name, True)]:
+            rr.ok(FN, "if {}: mark page".format(flag_name))
+        elif any(t == flag_name and not truth for t, truth in conds):
+            rr.bad(Finding("C17.R2", CORE, FN, "if {}: set_template_pre_expand(page.title)".format(flag_name),
+                           "the classified page is marked when the classifier's flag is false", mk.lineno))
+        elif not any(t == flag_name for t, truth in conds):
+            rr.bad(Finding("C17.R2", CORE, FN, "if {}: set_template_pre_expand(page.title)".format(flag_name),
+                           "the classifier's flag no longer marks the classified page (marking does not depend on it)", mk.lineno))
+        else:
+            rr.bad(Finding("C17.R2", CORE, FN, "if {}: set_template_pre_expand(page.title)".format(flag_name),
+                           "the classifier's flag marks the classified page only under a further condition: {}".format(
+                               " and ".join(("" if tr else "not ") + t for t, tr in conds if t != flag_name)), mk.lineno))
     # reader side
     loops = [n for n in walk_no_nested(fn) if isinstance(n, ast.While) and WORK in unparse(n.test)]
     lp = loops[0]
